@@ -16,16 +16,22 @@ import (
 func checkC17() int {
 	c := NewCheck("C17")
 	pool := newPool()
-	c.Rule = "exhaustive: all 4 modes, 16 ordered pairs and 64 triples of the real Modality values (CanBeDownshiftedTo, CanBeUpshiftedTo, AllowsWeakening, AllowsContraction, Equals) against R4 (rep on top, lin at the bottom, mul and aff incomparable; sigma(rep)={W,C}, sigma(mul)={C}, sigma(aff)={W}, sigma(lin)={}): reflexivity, transitivity, antisymmetry, top/bottom, converse law, monotonicity of the structural rules; the 12 documented spellings through StringToMode, asked in 12 seeded orders per run (mixed with capitalised and unknown spellings and with parses in between) in several runs: every answer must be the documented mode; every tuple is non-trivial"
+	c.Rule = "exhaustive: all 4 modes, 16 ordered pairs and 64 triples of the real Modality values (CanBeDownshiftedTo, CanBeUpshiftedTo, AllowsWeakening, AllowsContraction, Equals) against R4 (rep on top, lin at the bottom, mul and aff incomparable; sigma(rep)={W,C}, sigma(mul)={C}, sigma(aff)={W}, sigma(lin)={}): reflexivity, transitivity, antisymmetry, top/bottom, converse law, monotonicity of the structural rules; the 12 documented spellings through StringToMode, asked in 12 seeded orders per run (mixed with capitalised and unknown spellings and with parses in between) in several runs; every run asks the 48 relation questions of each of its 13 tables in a seeded order, 16 (quick) / 64 (thorough) runs each in a fresh worker process and again in workers with a history, all tables must coincide: every answer must be the documented mode; every tuple is non-trivial"
 	c.Assumptions = []string{"nothing beyond the statement is asserted: case variants and unknown spellings are only recorded"}
 	// the job is run several times (each in whatever worker is free: fresh ones and ones that
 	// have served other jobs); every run asks the spellings in 12 seeded orders, mixed with
 	// capitalised and unknown spellings and with programs parsed in between
 	var mjobs []sup.Job
-	for k := 0; k < c.pick(8, 64); k++ {
+	for k := 0; k < c.pick(16, 64); k++ {
 		mjobs = append(mjobs, sup.Job{Kind: "modes", Seed: uint64(subSeed(c.Seed, 1700+k))})
 	}
-	outs := pool.Run(mjobs, nil)
+	// each job in a worker process of its own (a fresh process asks its first table in its own
+	// seeded order), then all of them again in one pool (workers with a history)
+	var outs []*sup.Outcome
+	for _, j := range mjobs {
+		outs = append(outs, newPool().Run([]sup.Job{j}, nil)...)
+	}
+	outs = append(outs, pool.Run(mjobs, nil)...)
 	for _, o := range outs[1:] {
 		c.Evaluations++
 		if o.Died() || o.Res == nil || o.Res.Modes == nil {
